@@ -54,6 +54,21 @@ Example C16_shipped_chain_refuted :
   chainf [CLeaf 11; CWrap 12] (XObj 3 11 [] (Some 77)) = XObj (FRESH + 1) 12 [] (Some 77).
 Proof. exact shipped_chain_loses_metadata. Qed.
 
+(* the input tree is never modified: metadata is attached to a node made by the hand-over itself; whatever comes back
+   under an identity of the input is the callback's answer, untouched *)
+Theorem C16_input_objects_untouched : forall fr last prev now, FRESH <= fr ->
+  xnid (hand_over fr last prev now) < FRESH -> hand_over fr last prev now = now.
+Proof. exact hand_over_leaves_input_objects. Qed.
+Print Assumptions C16_input_objects_untouched.
+(* ... which the rule as shipped violated: a callback that unwraps a node (answers with its child, an input object
+   without metadata) left that input object with the metadata of its parent.  Repaired in /repo. *)
+Example C16_shipped_hand_over_refuted :
+  carry_meta (XObj 1 10 [XObj 2 11 [] None] (Some 77)) (apply_cb (CChild 10) FRESH (XObj 1 10 [XObj 2 11 [] None] (Some 77)))
+    = XObj 2 11 [] (Some 77)
+  /\ hand_over FRESH (Some 77) (XObj 1 10 [XObj 2 11 [] None] (Some 77)) (apply_cb (CChild 10) FRESH (XObj 1 10 [XObj 2 11 [] None] (Some 77)))
+    = XObj FRESH 11 [] (Some 77).
+Proof. exact shipped_hand_over_writes_into_input. Qed.
+
 (* non-vacuity / examples: replacement inherits metadata, the parent copy keeps the parent's *)
 Example C16_example :
   fst (tr (chainf [CRepl 11 12]) (XObj 1 10 [XLeaf 2; XObj 3 11 [XLeaf 4] (Some 77)] (Some 66)) (TS 100 []))
